@@ -66,6 +66,13 @@ func oMap(o map[string]any, k string) map[string]any {
 
 func b2(n int) [2]byte { return [2]byte{byte(n >> 8), byte(n)} }
 
+func widen(v, width int) []byte {
+	if width == 4 {
+		return []byte{0xAB, 0xCD, byte(v >> 8), byte(v)}
+	}
+	return []byte{byte(v >> 8), byte(v)}
+}
+
 func arr4(b []byte) (a [4]byte)   { copy(a[:], b); return }
 func arr8(b []byte) (a [8]byte)   { copy(a[:], b); return }
 func arr16(b []byte) (a [16]byte) { copy(a[:], b); return }
@@ -109,8 +116,11 @@ func buildReader(s script) (r io.Reader, pmsg string) {
 		}
 		return &t, ""
 	case "user":
-		id, icon, flags := b2(oInt(o, "id")), b2(oInt(o, "icon")), b2(oInt(o, "flags"))
-		return &hotline.User{ID: id, Icon: icon[:], Flags: flags[:], Name: string(oBytes(o, "name"))}, ""
+		// Icon and Flags in their 2-byte form or as a 4-byte integer (iconw / flagsw = 4): the low half is the value,
+		// the high half must not reach the wire (non-zero here so that it would be seen)
+		id := b2(oInt(o, "id"))
+		return &hotline.User{ID: id, Icon: widen(oInt(o, "icon"), oInt(o, "iconw")), Flags: widen(oInt(o, "flags"), oInt(o, "flagsw")),
+			Name: string(oBytes(o, "name"))}, ""
 	case "account":
 		pw := ""
 		if oBool(o, "haspw") {
@@ -345,8 +355,7 @@ func decode(kind string, b []byte, which int) (d map[string]any, msg string, has
 			return fail(fmt.Errorf("short"))
 		}
 		count := int(binary.BigEndian.Uint16(in[0:2]))
-		sc := bufio.NewScanner(bytes.NewReader(in[2:]))
-		sc.Buffer(make([]byte, 0, 1<<17), 1<<17)
+		sc := bufio.NewScanner(bytes.NewReader(in[2:])) // default buffer (4096, doubling), as the handler's
 		sc.Split(hotline.FieldScanner)
 		fields := []any{}
 		for i := 0; i < count; i++ {
@@ -447,4 +456,65 @@ func decode(kind string, b []byte, which int) (d map[string]any, msg string, has
 			"name": sim.Ints(s.Name), "dsize": int(s.DescriptionSize), "desc": sim.Ints(s.Description)}), "", true
 	}
 	return nil, "", false
+}
+
+// ---- component pre-flight ----
+//
+// Three encoders drain other encoders in an unbounded loop *inside* one call: Transaction.Read (bytes.Buffer.ReadFrom
+// over every Field), Account.Read (io.ReadAll over its Fields) and GetNewsArtListData (io.ReadAll over every
+// NewsArtList).  If such a component never reports end of stream the composite call never returns, which the
+// driver could not observe.  So before a composite is built, equal copies of its components are drained the way
+// those loops do (512-byte buffers) with a bound on calls and bytes; a component that is not finished within the
+// bound is recorded ("terminated": false, "via": ...) and the composite is not called.
+
+func componentFinishes(r io.Reader, maxBytes int) (finished bool, calls, emitted int) {
+	maxCalls := maxBytes/512 + 8
+	buf := make([]byte, 512)
+	for calls < maxCalls && emitted <= maxBytes {
+		k, err, pmsg := safeRead(r, buf)
+		calls++
+		if pmsg != "" {
+			return true, calls, emitted // a panic ends the composite call too: seen by the drain proper
+		}
+		if k > 0 {
+			emitted += k
+		}
+		if err != nil {
+			return true, calls, emitted
+		}
+	}
+	return false, calls, emitted
+}
+
+func preflight(s script) (via string, calls, emitted int) {
+	o := s.Obj
+	field := func(id int, data []byte) (bool, int, int) {
+		f := hotline.NewField(b2(id), data)
+		return componentFinishes(&f, len(data)+4+1024)
+	}
+	switch s.Kind {
+	case "txn":
+		for i, fv := range oList(o, "fields") {
+			fm, _ := fv.(map[string]any)
+			if fin, c, e := field(oInt(fm, "id"), oBytes(fm, "data")); !fin {
+				return fmt.Sprintf("Field.Read (field %d)", i+1), c, e
+			}
+		}
+	case "account":
+		for i, d := range [][]byte{oBytes(o, "name"), hotline.EncodeString(oBytes(o, "login")), oBytes(o, "access"), []byte("x")} {
+			if fin, c, e := field([]int{102, 105, 110, 106}[i], d); !fin {
+				return fmt.Sprintf("Field.Read (account field %d)", i+1), c, e
+			}
+		}
+	case "nald":
+		for i, av := range oList(o, "arts") {
+			am, _ := av.(map[string]any)
+			nal := hotline.NewsArtList{ID: arr4(oBytes(am, "id")), TimeStamp: arr8(oBytes(am, "date")), ParentID: arr4(oBytes(am, "parent")),
+				Title: oBytes(am, "title"), Poster: oBytes(am, "poster"), ArticleSize: b2(oInt(am, "size"))}
+			if fin, c, e := componentFinishes(&nal, len(nal.Title)+len(nal.Poster)+64+1024); !fin {
+				return fmt.Sprintf("NewsArtList.Read (article %d)", i+1), c, e
+			}
+		}
+	}
+	return "", 0, 0
 }
